@@ -52,8 +52,8 @@ def check(prop, tier, seed):
         if kid:
             known_hits[kid] = known_hits.get(kid, 0) + 1
             continue
-        key = (res.get("class"), case.get("batch"))
-        if key in seen_classes and len(violations) >= 3:
+        key = res.get("class")
+        if key in seen_classes:
             continue
         seen_classes.add(key)
         violations.append((case, res))
